@@ -220,10 +220,11 @@ class _GitTransaction:
     def __exit__(self, exc_type, exc_value, exc_trace):
         if exc_value is not None:
             self.__handler._transaction = None
-            self.__handler._git("reset", "--hard", self.__old_sha)
+            self.__rollback()
             return self.__outer_context.__exit__(
                 exc_type, exc_value, exc_trace
             )
+        ref_updated = False
         try:
             LOGGER.debug("Writing updated tree to database")
             tree = self.__write_tree()
@@ -236,11 +237,13 @@ class _GitTransaction:
             commit = self.__commit(tree)
             if self.__dry_run:
                 LOGGER.debug("Not updating branch pointers (dry_run=True)")
+                self.__rollback()
                 return None
 
             LOGGER.debug("Updating ref %r to %s", self.__targetref, commit)
             self.__handler._git("reset", "--soft", commit)
             self.__update_target_ref(commit)
+            ref_updated = True
 
             if not self.__push:
                 LOGGER.debug("Not pushing changes to remote (push=False)")
@@ -248,11 +251,20 @@ class _GitTransaction:
 
             LOGGER.debug("Pushing updated ref %r", self.__targetref)
             self.__push_updates("origin")
+        except BaseException:
+            if not ref_updated:
+                self.__rollback()
+            raise
         finally:
             del self.__old_sha
             self.__handler._transaction = None
             self.__outer_context.__exit__(exc_type, exc_value, exc_trace)
         return None
+
+    def __rollback(self) -> None:
+        """Restore index and work tree to the state before the transaction."""
+        self.__handler._git("reset", "--hard", self.__old_sha)
+        self.__handler._git("clean", "-fdq")
 
     def record_update(self, filename: pathlib.PurePosixPath) -> None:
         """Record an updated file in the current transaction.
